@@ -57,10 +57,14 @@ impl Pool {
     /// Sends every item to some worker; results come back in item order. A worker that dies
     /// while serving an item yields Err("worker died") for that item and is replaced.
     pub fn map(&self, items: &[Value]) -> Vec<Result<Value, String>> {
+        self.map_limited(items, usize::MAX)
+    }
+    /// like `map`, with at most `max_parallel` workers busy at a time (memory-hungry items)
+    pub fn map_limited(&self, items: &[Value], max_parallel: usize) -> Vec<Result<Value, String>> {
         let next = std::sync::atomic::AtomicUsize::new(0);
         let out: Mutex<Vec<Option<Result<Value, String>>>> = Mutex::new((0..items.len()).map(|_| None).collect());
         std::thread::scope(|s| {
-            for w in &self.workers {
+            for w in self.workers.iter().take(max_parallel.max(1)) {
                 s.spawn(|| {
                     let mut slot = w.lock().unwrap();
                     loop {
